@@ -100,33 +100,41 @@ def _lawclass(s):
 
 
 def cli_case(chk, workdir, main, expect_failed, name, files):
-    """real kddp: exit status <=> verdict, and exit status <=> executable"""
-    exe = os.path.join(workdir, "out_exe")
-    for p in (exe, exe + ".o"):
-        if os.path.exists(p):
-            os.unlink(p)
-    pr = vlib.kddp_compile(os.path.join(workdir, main), exe, wall_s=120)
-    if pr.timed_out:
-        chk.inconclusive += 1
-        return
-    chk.count("cli_runs")
-    fdump = {k: (v if isinstance(v, str) else repr(v)) for k, v in files.items()}
-    rf = {"files.json": json.dumps(fdump, indent=1, ensure_ascii=False), "kddp_stderr.txt": pr.err[-6000:], "kddp_stdout.txt": pr.out[-2000:]}
-    exists = os.path.exists(exe)
-    if expect_failed and pr.rc == 0:
-        chk.violation({"kind": "cli", "law": "front end reported errors but kddp exit 0"}, files=rf, text=name)
-    if pr.rc != 0 and exists:
-        chk.violation({"kind": "cli", "law": "kddp exit != 0 but executable left behind"}, files=rf, text=name)
-    if pr.rc == 0 and not exists:
-        chk.violation({"kind": "cli", "law": "kddp exit 0 but no executable"}, files=rf, text=name)
-    if pr.rc == 0 and exists and not os.access(exe, os.X_OK):
-        chk.violation({"kind": "cli", "law": "kddp exit 0 but output not executable"}, files=rf, text=name)
-    if not expect_failed and pr.rc != 0:
-        chk.count("cli_accepted_by_frontend_but_kddp_failed(C02)")
-    if pr.rc != 0:
-        chk.count("cli_failed")
-    else:
-        chk.count("cli_succeeded")
+    """real kddp: exit status <=> verdict, and exit status <=> executable; a rejected source is compiled in both link modes
+    (--module-linken=false takes another path through compiler.Compile)"""
+    for link_modules in ((True, False) if expect_failed else (True,)):
+        mode = {} if link_modules else {"mode": "--module-linken=false"}
+        exe = os.path.join(workdir, "out_exe")
+        for p in (exe, exe + ".o"):
+            if os.path.exists(p):
+                os.unlink(p)
+        pr = vlib.kddp_compile(os.path.join(workdir, main), exe, wall_s=120, link_modules=link_modules)
+        if pr.timed_out:
+            chk.inconclusive += 1
+            continue
+        chk.count("cli_runs")
+        fdump = {k: (v if isinstance(v, str) else repr(v)) for k, v in files.items()}
+        rf = {"files.json": json.dumps(fdump, indent=1, ensure_ascii=False), "kddp_stderr.txt": pr.err[-6000:], "kddp_stdout.txt": pr.out[-2000:]}
+        exists = os.path.exists(exe)
+        if expect_failed and pr.rc == 0:
+            chk.violation(dict({"kind": "cli", "law": "front end reported errors but kddp exit 0"}, **mode), files=rf, text=name)
+        if expect_failed and "CompilerError(" in (pr.err + pr.out):
+            chk.violation(dict({"kind": "cli", "law": "rejected source went on to code generation (reported as an internal compiler error)"}, **mode), files=rf, text=name)
+        if pr.rc != 0 and exists:
+            chk.violation(dict({"kind": "cli", "law": "kddp exit != 0 but executable left behind"}, **mode), files=rf, text=name)
+        if pr.rc == 0 and not exists:
+            chk.violation(dict({"kind": "cli", "law": "kddp exit 0 but no executable"}, **mode), files=rf, text=name)
+        if pr.rc == 0 and exists and not os.access(exe, os.X_OK):
+            chk.violation(dict({"kind": "cli", "law": "kddp exit 0 but output not executable"}, **mode), files=rf, text=name)
+        if not link_modules:
+            chk.count("cli_runs_module_linken_false")
+            continue
+        if not expect_failed and pr.rc != 0:
+            chk.count("cli_accepted_by_frontend_but_kddp_failed(C02)")
+        if pr.rc != 0:
+            chk.count("cli_failed")
+        else:
+            chk.count("cli_succeeded")
 
 
 def run(tier):
@@ -138,7 +146,7 @@ def run(tier):
                 "positions (first/last token, alias strings, imported modules, generic instantiations, CRLF, tabs and multi-byte text). Distinct by "
                 "input hash; non-trivial = delivered at least one diagnostic or went through the CLI. Laws per diagnostic: file is a readable source, "
                 "1<=line<=#lines, 1<=column<=runes(line)+1, start<=end, real MakeAdvancedHandler renders it; per module: errors>=1 <=> faulty; "
-                "CLI: errors => exit!=0; exit!=0 => no executable; exit 0 => executable.")
+                "CLI: errors => exit!=0; exit!=0 => no executable; exit 0 => executable; a rejected source never reaches code generation (both link modes).")
     chk.assumptions = ["an error value returned by parser.Parse (e.g. invalid UTF-8) counts as a delivered error diagnostic",
                        "a front-end crash is C03's finding and is not judged here"]
     with Scratch("c07") as sc:
